@@ -192,6 +192,12 @@ impl RequestHandler<Rename> for RenameHandler {
                             (loc.uri, edit)
                         })
                         .into_group_map();
+
+                    // Determining the new paths has renamed the symbol in the live symbol table, while the sources are
+                    // still unchanged (it is the client that applies the edit). Bring the two back in line.
+                    drop(codegen);
+                    ctx.perform_codegen();
+
                     return Ok(Some(WorkspaceEdit {
                         changes: Some(changes),
                         document_changes: None,
